@@ -2,7 +2,7 @@ use crate::{
     ast::{AstInfo, AstInfoTraverser, Reference},
     error::{ErrorMessage, ParseErrorMessage, ParserError, ParserErrorKind},
     parser::{IResult, Parser},
-    tokens::{Token, TokenChange, TokenStream},
+    tokens::{Token, TokenChange, TokenStream, TokenType},
     Shiftable, ToRange,
 };
 use nom::{
@@ -10,7 +10,7 @@ use nom::{
     combinator::map,
     multi::many0,
     sequence::preceded,
-    {InputTake, Offset},
+    {InputLength, InputTake, Offset},
 };
 use std::ops::Range;
 
@@ -323,6 +323,23 @@ where
             || is_partially_consumed(location_offset, token_change, this_range.start)
     }
 
+    /// Number of tokens behind the first `len` tokens of the input, which a parser may have looked at:
+    /// two tokens and all the comments in front of them.
+    fn look_ahead_len(input: &TokenStream, len: usize) -> usize {
+        let mut tokens_seen = 0;
+        input[len.min(input.input_len())..]
+            .iter()
+            .take_while(|token| {
+                let is_looked_at = tokens_seen < 2;
+                if !matches!(token.token_type, TokenType::Comment(_)) {
+                    tokens_seen += 1;
+                }
+                is_looked_at
+            })
+            .count()
+            .max(2)
+    }
+
     const fn affected_error<O>(input: TokenStream) -> IResult<O> {
         Err(nom::Err::Error(ParserError {
             input,
@@ -336,10 +353,12 @@ where
             if invalid(&input, &this_range) {
                 return affected_error(input);
             }
-            // TODO: maybe dynamic affection range
             // Some parsers look at up to two tokens behind a node,
             // e.g. an argument ends in front of `ident :=`.
-            let affected_range = this_range.start..(this_range.end + 2);
+            // The comments in front of these tokens are skipped by the token parsers,
+            // so they do not count.
+            let affected_range =
+                this_range.start..(this_range.end + look_ahead_len(&input, this_range.len()));
             // The error recovery ignores tokens until it finds something it knows.
             // So the extent of a node with a syntax error may depend on any of the following tokens.
             let has_syntax_error = this
